@@ -44,7 +44,7 @@ UNIT = Unit(
     ],
     template=TEMPLATE,
     jobs=[Job('round', 'h_round', enforce=['DoubleSupport_round'], cls='P',
-              flags=['--float-overflow-check', '--conversion-check'], timeout=300)],
+              flags=['--conversion-check'], timeout=300)],
     mutants=[
         Mutant('round_ties_down', DS, r'fracPart < -0\.5 \? intPart - 1\.0', 'fracPart <= -0.5 ? intPart - 1.0', expect='nearest'),
         Mutant('round_half_up_lost', DS, r'fracPart >= 0\.5 \? intPart \+ 1\.0', 'fracPart > 0.5 ? intPart + 1.0', expect='nearest'),
